@@ -1,10 +1,10 @@
 /-
   C05 — Compaction and checkpoint are invisible.
   Statements only (helper lemmas: Nervus.Proofs.{CsrForward,CsrReverse,CsrIncoming,EngineCompact,
-  EngineCompactProps}).  Model: Nervus.Model.{Csr,Engine} (`compact` = Db::compact = Db::checkpoint:
+  EngineCompactProps,EngineCompactMap,PublishRun,CompactHist}).  Model: Nervus.Model.{Csr,Engine} (`compact` = Db::compact = Db::checkpoint:
   build_segment_from_runs, CsrSegment::persist, property sinking, manifest + checkpoint, runs cleared).
 -/
-import Nervus.Proofs.EngineCompactMap
+import Nervus.Proofs.CompactHist
 namespace Nervus.Props.C05
 open Nervus Nervus.Storage
 open Nervus.GraphSpec (TxOp Op)
@@ -24,11 +24,8 @@ def C05_full : Prop :=
     (∀ n k, s.nodeProp n k = s'.nodeProp n k) ∧ (∀ n k, (s.nodeProps n).lookup k = (s'.nodeProps n).lookup k) ∧
     (∀ e k, s.edgeProp e k = s'.edgeProp e k)
 
-/-- the engine state a compaction may start from without losing anything: the runs hold no node or
-    edge tombstone and no property removal (the store is empty while there is no root) -/
-def compactSafe (s : Engine) : Bool :=
-  s.runs.all (fun r => r.tombNodes.isEmpty && r.tombEdges.isEmpty && r.nDel.isEmpty && r.eDel.isEmpty) &&
-  (s.propsRoot != 0 || s.store.isEmpty)
+/-! `compactSafe s` (Proofs/EngineCompactMap): the runs of `s` hold no node or edge tombstone and no
+    property removal, and the store is empty while there is no root. -/
 
 /-- **C05 (proved part, state level)**: from EVERY engine state that is `compactSafe` — any number of
     runs with any edges (parallel, self loops, none at all) and any properties, any older segments,
@@ -62,9 +59,8 @@ theorem C05_partial (s : Engine) (hs : compactSafe s = true) :
   · funext n; unfold Engine.resolveExternal; rw [hid.1]
   · funext x; unfold Engine.lookupInternal; rw [hid.1]
 
-/-- no node property key held by a run is already in the store (no key is sunk twice) -/
-def freshNodeKeys (s : Engine) : Bool :=
-  s.runs.all (fun r => r.nprops.all (fun p => (lastNode s.store p.1.1 p.1.2).isNone))
+/-! `freshNodeKeys s` (Proofs/EngineCompactMap): no node property key held by a run is already in the
+    store (no key is sunk twice). -/
 
 /-- **C05 (proved part, whole-map read)**: from every `compactSafe` state in which no node property
     key of the runs is already in the store, `node_properties` (the whole map) answers the same value
@@ -81,6 +77,49 @@ theorem C05_partial_whole_map (s : Engine) (hs : compactSafe s = true) (hf : fre
         · exact absurd h0 h
         · exact h)
     hf n k
+
+/-! ### history level: compactions at arbitrary positions
+
+    `compactHistSafe c s h` (Proofs/CompactHist, decidable — it runs the model): `h` consists of
+    transactions (committed or dropped) and compactions; every compaction starts from a state that is
+    `compactSafe` with `freshNodeKeys`; after every transaction no published property removal sits over
+    a value in the store (`removalsClear`).  `dropCompactions h` = `h` without its `.compact` entries. -/
+
+/-- every read interface answers alike: node enumeration (both kinds), tombstone test, neighbours in
+    both directions with any type filter (as multisets; a panic on one side is a panic on the other),
+    single-key node / relationship properties, `node_properties` key by key, labels (ids and names),
+    external ids, external-id lookup, interned names, vector search -/
+def SameReads (s u : Engine) : Prop :=
+  s.nodes = u.nodes ∧ s.nodesSnap = u.nodesSnap ∧ s.isTombstoned = u.isTombstoned ∧
+  (∀ n rel, PermOpt (s.neighbors n rel) (u.neighbors n rel)) ∧
+  (∀ n rel, PermOpt (s.incoming Cfg.current n rel) (u.incoming Cfg.current n rel)) ∧
+  (∀ n k, s.nodeProp n k = u.nodeProp n k) ∧ (∀ e k, s.edgeProp e k = u.edgeProp e k) ∧
+  (∀ n k, (s.nodeProps n).lookup k = (u.nodeProps n).lookup k) ∧
+  s.nodeLabels = u.nodeLabels ∧ s.nodeLabelNames = u.nodeLabelNames ∧ s.resolveExternal = u.resolveExternal ∧
+  s.lookupInternal = u.lookupInternal ∧ s.interner = u.interner ∧ s.vecNodes = u.vecNodes
+
+/-- **C05 (proved part, history level)**: for EVERY history of transactions and compactions that is
+    `compactHistSafe` — any number of compactions at any positions — the engine answers every read
+    exactly as the engine that ran the same history WITHOUT any of the compactions. -/
+theorem C05_partial_hist (h : List Op) (hs : compactHistSafe Cfg.current {} h = true) :
+    ∃ s u, Storage.run Cfg.current h = .ok s ∧ Storage.run Cfg.current (dropCompactions h) = .ok u ∧
+      SameReads s u := by
+  obtain ⟨s, u, h1, h2, hE⟩ := hist_eqv Cfg.current csr_guard_present h {} {} (Eqv.refl _ _) rfl hs
+  exact ⟨s, u, h1, h2, hE.reads⟩
+
+/-- **C05 in the shape of `C05_full`**: inserting one compaction anywhere in a history changes no later
+    read, when both histories are `compactHistSafe` (either may hold further compactions). -/
+theorem C05_partial_insert (h₁ h₂ : List Op)
+    (hs : compactHistSafe Cfg.current {} (h₁ ++ [.compact] ++ h₂) = true)
+    (hs' : compactHistSafe Cfg.current {} (h₁ ++ h₂) = true) :
+    ∃ s s', Storage.run Cfg.current (h₁ ++ [.compact] ++ h₂) = .ok s ∧
+      Storage.run Cfg.current (h₁ ++ h₂) = .ok s' ∧ SameReads s s' := by
+  obtain ⟨s, u, h1, h2, hE⟩ := hist_eqv Cfg.current csr_guard_present _ {} {} (Eqv.refl _ _) rfl hs
+  obtain ⟨s', u', h1', h2', hE'⟩ := hist_eqv Cfg.current csr_guard_present _ {} {} (Eqv.refl _ _) rfl hs'
+  rw [dropCompactions_insert] at h2
+  have : u = u' := by rw [h2] at h2'; cases h2'; rfl
+  subst this
+  exact ⟨s, s', h1, h1', (hE.trans hE'.symm).reads⟩
 
 /-- **CSR construction lemma** (shared with C30): for EVERY edge list, the built and persisted
     segment answers `neighbors` / `incoming_neighbors` with exactly the edges of that source /
@@ -109,6 +148,13 @@ def hSafe : List Op :=
 
 example : ∃ s, Storage.run Cfg.current hSafe = .ok s ∧ compactSafe s = true ∧ s.runs.length = 2 ∧
     s.segs.length = 1 := ⟨_, rfl, by decide, by decide, by decide⟩
+
+/-- non-vacuity of the history-level statements: two compactions, transactions between and after -/
+def hSafe2 : List Op := hSafe ++ [ .compact, .tx [.node 12 none, .edge 2 R 0, .nprop 2 K 7] true ]
+
+example : compactHistSafe Cfg.current {} hSafe2 = true := by decide
+example : compactHistSafe Cfg.current {} (dropCompactions hSafe2) = true := by decide
+example : (dropCompactions hSafe2).length + 2 = hSafe2.length := by decide
 
 /-! ### counterexamples on the CURRENT tree (known findings; witnesses in corpus/engine_compact/) -/
 
